@@ -155,7 +155,7 @@ pub fn field_case(ctx: &mut Ctx, ls: &Layouts, compressed: bool, kind: &str, pat
         joint.extend_from_slice(&follower);
         let j2 = joint.clone();
         let r = guard(move || {
-            let c = insim::net::Codec::new(crate::conn::mode_of(compressed));
+            #[allow(unused_mut)] let mut c = insim::net::Codec::new(crate::conn::mode_of(compressed));
             let mut buf = bytes::BytesMut::from(&j2[..]);
             let p = c.decode(&mut buf);
             (p.ok().flatten(), buf.to_vec())
@@ -168,6 +168,22 @@ pub fn field_case(ctx: &mut Ctx, ls: &Layouts, compressed: bool, kind: &str, pat
                 ctx.violation(&format!("c11/read-beyond-frame/{}.{}", kind, path), "with another packet behind it in the buffer, the text field is not the text of its own frame (or the following frame is not left intact)", &input, &format!("{} + rest {}", crate::text::cps(&expect), hex(&follower)), &format!("{:?} + rest {}", decoded.map(|d| crate::text::cps(&d)), hex(&rest)));
             }
         }
+    }
+}
+
+/// the same packet serialised into a writer that accepts a few bytes per call: every text field still occupies its bytes
+/// (a field handed to the sink with one `write` instead of `write_all` comes out short, and everything after it shifts)
+pub fn short_writer_case(ctx: &mut Ctx, kind: &str, path: &str, build: &dyn Fn(String) -> Packet, text: &str, per: usize) {
+    use insim_core::binrw::BinWrite;
+    ctx.oracle_eval("short-writer");
+    let input = format!("c11.sink {} {}.{} {}", per, kind, path, crate::text::cps(text));
+    let p = build(text.to_string());
+    let p2 = p.clone();
+    let whole = guard(std::panic::AssertUnwindSafe(move || { let mut c = Cursor::new(Vec::new()); p.write(&mut c).map(|_| c.into_inner()).map_err(|_| ()) }));
+    let piece = guard(std::panic::AssertUnwindSafe(move || { let mut w = DribbleW::new(per); p2.write(&mut w).map(|_| w.inner.into_inner()).map_err(|_| ()) }));
+    if whole != piece {
+        ctx.violation(&format!("c11/short-writer/{}.{}", kind, path), "written through a sink that accepts a few bytes per call, the packet's bytes are not those written into memory (a text field came out short)", &input,
+            &format!("{:?}", whole.map(|r| r.map(|b| hex(&b)))), &format!("{:?}", piece.map(|r| r.map(|b| hex(&b)))));
     }
 }
 
@@ -208,6 +224,10 @@ pub fn run(ctx: &mut Ctx) {
             let w: Vec<&str> = l.split_whitespace().collect();
             match w.as_slice() {
                 ["str.write", n, a, h] => { let e = unhex(h); let s = String::from_utf8_lossy(&e).to_string(); helper_case(ctx, n.parse().unwrap_or(6), true, a.parse().unwrap_or(0), &s); },
+                ["c11.sink", per, kp, t] => {
+                    let (k, p) = kp.split_once('.').unwrap_or((kp, ""));
+                    for (bk, bp, b) in &builders { if bk == &k && bp == &p { short_writer_case(ctx, k, p, b.as_ref(), &crate::text::from_cps(t), per.parse().unwrap_or(1).max(1)); } }
+                },
                 ["c11.field", m, kp, t] => {
                     let (k, p) = kp.split_once('.').unwrap_or((kp, ""));
                     for (bk, bp, b) in &builders { if bk == &k && bp == &p { field_case(ctx, &ls, *m == "c", k, p, b.as_ref(), &crate::text::from_cps(t)); } }
@@ -281,6 +301,8 @@ pub fn run(ctx: &mut Ctx) {
             }
         }
     }
+    for (kind, path, b) in &builders { for t in ["", "abc", "a text of twenty-one b", "\u{11b}\u{161}\u{436}"] { for per in [1usize, 5, 17] { short_writer_case(ctx, kind, path, b.as_ref(), t, per); } } }
+    ctx.exhaustive_domains.push("every text field's packet serialised into a sink that accepts 1, 5, 17 bytes per call x 4 texts".into());
     for n in [8usize, 64, 128, 240] { for t in ["abcd\0", "abc\0", "\0ab\0cd", "first\0second", "\0"] { helper_case(ctx, n, false, 0, t); helper_case(ctx, n, false, 4, t); } }
     ctx.exhaustive_domains.push("every text field of every text-bearing kind x text lengths 0..2N (ASCII, and multi-codepage every 6th length) x both modes; NUL at 4 positions inside each field; seven texts that contain NUL characters".into());
 }
